@@ -737,6 +737,14 @@ func runWorldModeX(cfg *runCfg, name string, kf1 bool, live bool) error {
 			w = directedWorld(r, rep, cfg.seed*100000+26)
 			w.reproposalDuringPendingSyncScript()
 			rep.count("world:directed-reproposal-during-pending-sync-script")
+		} else if !kf1 && i == 27 {
+			w = directedWorld(r, rep, cfg.seed*100000+27)
+			w.preparedThenFreshNewViewScript()
+			rep.count("world:directed-prepared-then-fresh-new-view-script")
+		} else if !kf1 && i == 28 {
+			w = directedWorld(r, rep, cfg.seed*100000+28, 3)
+			w.borrowedShareScript()
+			rep.count("world:directed-borrowed-share-script")
 		} else {
 			w.run()
 		}
@@ -808,7 +816,8 @@ func newWorld(r *rand.Rand, rep *Report, seed int64) *world {
 	w := &world{r: r, rep: rep, kr: newKeyring(seed), byz: map[uint64]bool{}, byId: map[uint64]*simNode{}, signed: map[string]bool{},
 		proposedBy: map[uint64]uint64{}, validatedBy: map[uint64][]uint64{}, failCommit: map[uint64][]uint64{}, excl: map[uint64][]uint64{}, chain: map[uint64]*aBlock{}, held: map[uint64]bool{}}
 	w.codec = newCodec(w.kr)
-	w.codec.replaySigs = seed%2 == 0 // in every other world an invalid signature is a genuine one replayed over other bytes
+	w.codec.replaySigs = seed%2 == 0 // in every other world an invalid signature is a genuine one replayed over other bytes, an invalid share member 0's genuine one
+	w.codec.borrowShareOf = new(uint64)
 	w.ord = rand.New(rand.NewSource(seed ^ 0x5bd1e995))
 	w.n = 4 + r.Intn(4)
 	w.weights = make([]uint64, w.n)
